@@ -21,6 +21,7 @@ import Golib.Lists.LinkedAtomic
 import Golib.Lists.LinkedConc
 import Golib.Lists.CrossNum
 import Golib.Lists.PackTable
+import Golib.Lists.RunLift
 
 namespace C13
 open Lists
@@ -394,6 +395,27 @@ theorem string_list_int_view (g : Growth) (hg : g.OK) (op : Cross.SOp) (l : TL B
     TL.abs (Cross.stepS g op l).2 = (Cross.specS op (TL.abs l)).2 ∧ TL.Inv (Cross.stepS g op l).2 :=
   Cross.stepS_refines g hg op l hi hb
 
+/-- **cross_view_histories.**  The three views above for EVERY op sequence (from any well-formed
+    list, as long as the list stays below the bound): all answers are those of the plain sequence
+    and the final list holds the final sequence. -/
+theorem cross_view_histories (g : Growth) (hg : g.OK) :
+    (∀ (ops : List Cross.IOp) (l : TL Int), TL.Inv l → (TL.abs l).length + ops.length ≤ TL.BOUND →
+      (RunLift.runG (Cross.stepI g) ops l).1 = (RunLift.runG Cross.specI ops (TL.abs l)).1 ∧
+      TL.abs (RunLift.runG (Cross.stepI g) ops l).2 = (RunLift.runG Cross.specI ops (TL.abs l)).2) ∧
+    (∀ (ops : List Cross.SOp) (l : TL Bytes), TL.Inv l → (TL.abs l).length + ops.length ≤ TL.BOUND →
+      (RunLift.runG (Cross.stepS g) ops l).1 = (RunLift.runG Cross.specS ops (TL.abs l)).1 ∧
+      TL.abs (RunLift.runG (Cross.stepS g) ops l).2 = (RunLift.runG Cross.specS ops (TL.abs l)).2) ∧
+    (∀ (k : CrossNum.Kind) (ops : List CrossNum.NOp) (l : TL CrossNum.Num), TL.Inv l →
+      (TL.abs l).length + ops.length ≤ TL.BOUND →
+      (RunLift.runG (CrossNum.step g k) ops l).1 = (RunLift.runG (CrossNum.spec k) ops (TL.abs l)).1 ∧
+      TL.abs (RunLift.runG (CrossNum.step g k) ops l).2 = (RunLift.runG (CrossNum.spec k) ops (TL.abs l)).2) :=
+  ⟨fun ops l hi hb => ⟨(RunLift.runI_refines g hg ops l hi hb).1, (RunLift.runI_refines g hg ops l hi hb).2.2⟩,
+   fun ops l hi hb => ⟨(RunLift.runS_refines g hg ops l hi hb).1, (RunLift.runS_refines g hg ops l hi hb).2.2⟩,
+   fun k ops l hi hb => ⟨(RunLift.runN_refines g hg k ops l hi hb).1, (RunLift.runN_refines g hg k ops l hi hb).2.2⟩⟩
+
+example : (RunLift.runG (Cross.stepS Growth.go) [.addString [45, 49, 50], .addString [43, 53], .getInt 0, .getInt 1, .getInt 2]
+    (TL.mk' ([] : Bytes) 0)).1 = [.unit, .unit, .int (-12), .int 5, .panic] := by decide
+
 /-- an integer stored through the text view comes back as itself, in both directions -/
 theorem cross_roundtrips (v : Int) (h : -9223372036854775808 ≤ v ∧ v ≤ 9223372036854775807) :
     (∀ s : List Bytes, (Cross.specS (.getInt s.length) (Cross.specS (.addInt v) s).2).1 = .int v) ∧
@@ -431,6 +453,10 @@ theorem numeric_conv_idempotent (k : CrossNum.Kind) (x y : CrossNum.Num)
 theorem toString_full_table (l : TL Int) (h : l.table.size = l.size) :
     CrossNum.toStringInts l = [91] ++ CrossNum.joinSp ((TL.abs l).map Cross.itoa) ++ [93] :=
   CrossNum.toStringInts_full l h
+
+/-- a list without spare capacity (hypothesis of `toString_full_table`) is reachable -/
+example : (TL.add Growth.go 0 (5 : Int) (TL.mk' 0 0)).map (fun l => (l.table.size, l.size)) = some (1, 1) := by
+  decide
 
 example : CrossNum.conv .f64 (.int 9007199254740993) = some (.f64 0x4340000000000000) ∧
     CrossNum.conv .int (.f64 0xbff8000000000000) = some (.int (-1)) ∧
@@ -472,6 +498,15 @@ theorem table_sort_permutes_rows (sort : SortFn) (hs : SortContract sort) (g : G
       absT t' = (absT t).map (fun e => (e.1, e.2.1, pick e.2.2 (ord.map Int.ofNat))) ∧
       (ord.map (cell c)).Pairwise (fun a b => dir (vLe (widthOfTy c.ty)) asc a b = true) :=
   sortTable_spec sort hs g hg t hi key asc c hk hlen hb
+
+open Lists.Table in
+/-- … and selecting a column along a permutation of its row numbers permutes it: every row of the
+    source is in the result exactly once (so `pick`, defined by `filterMap`, drops nothing in the
+    two theorems around this one, and the row count is kept) -/
+theorem table_sorted_column_is_permutation (xs : List V) (ord : List Nat)
+    (h : ord.Perm (List.range xs.length)) :
+    (pick xs (ord.map Int.ofNat)).Perm xs ∧ (pick xs (ord.map Int.ofNat)).length = xs.length :=
+  ⟨pick_perm xs ord h, (pick_perm xs ord h).length_eq⟩
 
 open Lists.Table in
 /-- **table_sortAny_permutes_rows.**  `SortAnyList(data, key, asc, key2, asc2)`: the same, with ties
@@ -539,6 +574,35 @@ theorem pack_unpack_merges (g : Growth) (hg : g.OK) (m w : T) (sz : Nat)
     ∃ s', PackTable.unpack g { raw := writeTable w, rawSize := sz, table := m } = some s' ∧
       s'.raw = [] ∧ s'.rawSize = 0 ∧ absT s'.table = absT m ++ absT w :=
   PackTable.unpack_merges g hg m w sz hn hw hd hf
+
+open Lists.Table in
+/-- **pack_unpack_general.**  The same without any hypothesis on the keys: whatever the in-memory
+    table holds and whatever keys the wire table has (colliding, repeated), unpack succeeds and the
+    table is the in-memory one with the wire columns PUT one after the other — a colliding key is
+    replaced in place by the wire column, new keys go last (`PackTable.aput`). -/
+theorem pack_unpack_general (g : Growth) (hg : g.OK) (m w : T) (sz : Nat)
+    (hn : w.length ≤ 32767) (hw : ∀ e ∈ w, WFEntry e) :
+    ∃ s', PackTable.unpack g { raw := writeTable w, rawSize := sz, table := m } = some s' ∧
+      s'.raw = [] ∧ s'.rawSize = 0 ∧ absT s'.table = (absT w).foldl PackTable.aput (absT m) :=
+  PackTable.unpack_general g hg m w sz hn hw
+
+open Lists.Table in
+/-- readTable of a written table into ANY receiver (no distinct-keys hypothesis): the decoded columns
+    are put into it in order -/
+theorem table_wire_any_receiver (g : Growth) (hg : g.OK) (t acc : T) (r : Bytes)
+    (hn : t.length ≤ 32767) (hw : ∀ e ∈ t, WFEntry e) :
+    ∃ es', P.run (readTable g acc) (writeTable t ++ r) = some (putAll acc es', r) ∧
+      absT es' = absT t ∧ InvT es' :=
+  run_readTable_gen g hg t acc r hn hw
+
+open Lists.Table in
+/-- a pack whose memory holds column `a` and whose wire table holds `a` (other contents) and `b`:
+    after unpack `a` is the wire one, in its old place, and `b` follows -/
+example : (PackTable.unpack Growth.go
+    { raw := writeTable [([97], ⟨1, ⟨1, false, #[.i 7]⟩⟩), ([98], ⟨5, ⟨0, false, #[]⟩⟩)], rawSize := 0,
+      table := [([97], ⟨1, ⟨2, false, #[.i 1, .i 2]⟩⟩), ([99], ⟨2, ⟨0, false, #[]⟩⟩)] }).map
+      (fun s => (s.raw, absT s.table)) =
+    some ([], [([97], 1, [.i 7]), ([99], 2, []), ([98], 5, [])]) := by decide
 
 /-- **pack_write_current_after_unpack.**  Every access that unpacks (Get, GetDataTable) empties the
     byte cache, and a Write with an empty cache encodes the CURRENT in-memory table — so
@@ -643,6 +707,35 @@ theorem finding_D45 {α : Type} (g : Growth) (hg : g.OK) (z : α) (l : TL α) (h
   TL.addAllSelfOrig_panics g hg z l hi h0 hb
 
 /-! ### non-vacuity -/
+
+/-- the capacity policy of /repo is one of those the theorems quantify over -/
+example : Growth.go.OK := Growth.go_ok
+
+/-- … and so is a different one (double instead of one and a half) -/
+example : (Growth.mk (fun o m => if o * 2 < m then m else o * 2) 4 2863311518).OK :=
+  ⟨fun o m => by simp only []; split <;> omega,
+   fun o m h1 h2 => by simp only []; unfold TL.BOUND at h2; split <;> omega,
+   by simp [TL.BOUND]⟩
+
+/-- a multi-object history meeting `SmallRun` -/
+example : Multi.SmallRun [Multi.MOp.add 1 (5 : Int), .addAll 0 1] Multi.SState.init := by
+  refine ⟨⟨fun i => ?_, trivial⟩, ⟨fun i => ?_, trivial⟩, trivial⟩ <;>
+    simp only [Multi.sstep, Multi.upd, Multi.SState.init] <;> (repeat' split) <;> simp [TL.BOUND]
+
+/-- a list at the wire count's wrap-around (hypotheses of `wire_count_wraps`) -/
+example : ∃ l : TL Int, 8388608 ≤ l.size ∧ l.size < 16777216 := ⟨⟨8388608, false, #[]⟩, by decide⟩
+
+open Lists.Table in
+/-- a table meeting the hypotheses of `table_wire` / `pack_unpack_merges` -/
+example : WFEntry ([97], ⟨1, ⟨2, false, #[.i 1, .i (-2)]⟩⟩) ∧ WFEntry ([], ⟨5, ⟨1, false, #[.s [104, 105], .s []]⟩⟩) := by
+  refine ⟨⟨by decide, by simp [TL.Inv], by decide, ?_, by decide⟩, ⟨by decide, by simp [TL.Inv], by decide, ?_, by decide⟩⟩
+  · intro x hx
+    simp [TL.abs] at hx
+    rcases hx with rfl | rfl <;> simp [wfV, Prim.inRange_8]
+  · intro x hx
+    simp [TL.abs] at hx
+    subst hx; simp [wfV]
+
 
 example : Fresh (0 : Int) (TL.mk' 0 3) := Fresh.withCap 3
 
